@@ -78,3 +78,7 @@ Definition sort_desc (l : list Q) : list Q := fold_right insert_desc [] l.
 Definition clean_units (units : list Q) : list Q := sort_desc (q_unique_acc [] units).
 Definition unit_list (units : list Q) (value : Q) : option (list Q) :=
   mixed_unit_list value (clean_units units) [].
+
+(* core/lists.nbt  reverse(xs) = if is_empty(xs) then [] else cons_end(head(xs), reverse(tail(xs)))  (hand port) *)
+Fixpoint nbt_reverse {A : Type} (xs : list A) : list A :=
+  match xs with [] => [] | x :: r => nbt_reverse r ++ [x] end.
